@@ -26,6 +26,7 @@ deriving DecidableEq, Repr
 
 inductive Guard where
   | unitOrFail | runOrFail | filter | none
+  | unknown            -- the translator could not tell whether a listing is filtered
 deriving DecidableEq, Repr
 
 structure Route where
@@ -45,16 +46,17 @@ def hasAccess (required user : List String) : Bool :=
 /-! `has_access` as it is written in the source, translated by the route translator (`Gen.Routes.hasAccessExpr`);
 `Properties/C32.lean` proves that it evaluates to `hasAccess` for all role lists. -/
 
+/-- the sets `has_access` speaks about -/
 inductive SetExpr where
   | req                        -- set(engine_or_run.required_roles)
   | user                       -- user_roles
-  | inter (a b : SetExpr)
-  | union (a b : SetExpr)
+  | both                       -- their intersection, however it is written (a & b, b & a, set.intersection …)
 deriving DecidableEq, Repr
 
 inductive AccExpr where
-  | isEmpty (s : SetExpr)      -- len(s) == 0
-  | nonEmpty (s : SetExpr)     -- len(s) > 0
+  | isEmpty (s : SetExpr)      -- len(s) == 0, s.isdisjoint(…) for `both`
+  | nonEmpty (s : SetExpr)     -- len(s) > 0, bool(s), truthiness of s, any(r in … for r in …) for `both`
+  | const (b : Bool)
   | or (a b : AccExpr)
   | and (a b : AccExpr)
   | not (a : AccExpr)
@@ -64,16 +66,32 @@ deriving DecidableEq, Repr
 def SetExpr.eval (required user : List String) : SetExpr → List String
   | .req => required
   | .user => user
-  | .inter a b => (a.eval required user).filter (fun x => (b.eval required user).contains x)
-  | .union a b => a.eval required user ++ b.eval required user
+  | .both => required.filter (fun x => user.contains x)
 
 /-- `none`: the source contains something that is not modelled -/
 def AccExpr.eval (required user : List String) : AccExpr → Option Bool
   | .isEmpty s => some (s.eval required user).isEmpty
   | .nonEmpty s => some (!(s.eval required user).isEmpty)
+  | .const b => some b
   | .or a b => do some ((← a.eval required user) || (← b.eval required user))
   | .and a b => do some ((← a.eval required user) && (← b.eval required user))
   | .not a => do some (!(← a.eval required user))
+  | .unknown _ => none
+
+/-- The same evaluation over the three facts an expression can observe: `required` empty, `user` empty,
+the intersection non-empty. -/
+def SetExpr.emptyAbs (er eu n : Bool) : SetExpr → Bool
+  | .req => er
+  | .user => eu
+  | .both => !n
+
+def AccExpr.evalAbs (er eu n : Bool) : AccExpr → Option Bool
+  | .isEmpty s => some (s.emptyAbs er eu n)
+  | .nonEmpty s => some (!(s.emptyAbs er eu n))
+  | .const b => some b
+  | .or a b => do some ((← a.evalAbs er eu n) || (← b.evalAbs er eu n))
+  | .and a b => do some ((← a.evalAbs er eu n) && (← b.evalAbs er eu n))
+  | .not a => do some (!(← a.evalAbs er eu n))
   | .unknown _ => none
 
 /-- a process unit, recent engine or recent run: id and required roles -/
